@@ -72,3 +72,64 @@ impl ParentW {
         ensures r.ignore_ctime == ignore_ctime, r.ignore_inode == ignore_inode,
     { unimplemented!() }
 }
+
+// ---- Parent::process, file arm: what a matched parent may contribute to the node that is archived ----
+#[derive(PartialEq, Eq)]
+pub struct DataIdW(pub u64);
+// a node as the file arm sees it: its list of content blobs and everything else (name, type, metadata) as one value
+pub struct FNode { pub content: Option<Vec<DataIdW>>, pub rest: u64 }
+impl FNode {
+    #[verifier::external_body]
+    pub fn name(&self) -> NameR { unimplemented!() }
+    pub open spec fn content_view(&self) -> Option<Seq<DataIdW>> { match self.content { Some(v) => Some(v@), None => None } }
+}
+pub struct VParentP { pub _opaque: u64 }
+// Parent::is_parent (p_node lookup + the metadata comparison, units p_node_lookup / is_parent_predicate): its answer for this node
+pub uninterp spec fn IS_PARENT(p: VParentP, node: FNode) -> ParentResult<FNode>;
+impl VParentP {
+    #[verifier::external_body]
+    pub fn vis_parent<'a>(&'a self, node: &FNode, name: &NameR) -> (r: ParentResult<&'a FNode>)
+        ensures
+            r is Matched <==> IS_PARENT(*self, *node) is Matched,
+            r is NotFound <==> IS_PARENT(*self, *node) is NotFound,
+            r is NotMatched <==> IS_PARENT(*self, *node) is NotMatched,
+            r matches ParentResult::Matched(p) ==> *p == IS_PARENT(*self, *node)->Matched_0,
+    { unimplemented!() }
+}
+pub struct VIndexP { pub _opaque: u64 }
+pub uninterp spec fn INDEX_HAS_DATA(index: VIndexP, id: DataIdW) -> bool;
+pub open spec fn all_chunks_indexed(c: Option<Seq<DataIdW>>, index: VIndexP) -> bool {
+    c matches Some(s) ==> forall|i: int| 0 <= i < s.len() ==> INDEX_HAS_DATA(index, #[trigger] s[i])
+}
+pub open spec fn some_chunk_indexed(c: Option<Seq<DataIdW>>, index: VIndexP) -> bool {
+    c matches Some(s) && exists|i: int| 0 <= i < s.len() && INDEX_HAS_DATA(index, #[trigger] s[i])
+}
+// content.iter().flatten().all(|id| index.has_data(id)) / .any(..): Option<Vec<_>>::iter().flatten() visits the ids of a
+// Some list and nothing of a None; Iterator::all / any by definition
+#[verifier::external_body]
+pub fn vall_data_in_index(c: &Option<Vec<DataIdW>>, index: &VIndexP) -> (r: bool)
+    ensures r == all_chunks_indexed(match *c { Some(v) => Some(v@), None => None }, *index),
+{ unimplemented!() }
+#[verifier::external_body]
+pub fn vany_data_in_index(c: &Option<Vec<DataIdW>>, index: &VIndexP) -> (r: bool)
+    ensures r == some_chunk_indexed(match *c { Some(v) => Some(v@), None => None }, *index),
+{ unimplemented!() }
+// Option<Vec<DataId>>::clone (clone_from assigns a clone)
+#[verifier::external_body]
+pub fn vclone_content(c: &Option<Vec<DataIdW>>) -> (r: Option<Vec<DataIdW>>)
+    ensures (match r { Some(v) => Some(v@), None => None }) == (match *c { Some(v) => Some(v@), None => None }),
+{ unimplemented!() }
+impl<T> ParentResult<T> {
+    // ParentResult::map(|_| ()): the kind of the answer without its node
+    pub fn vunit(self) -> (r: ParentResult<()>)
+        ensures r is Matched <==> self is Matched, r is NotFound <==> self is NotFound, r is NotMatched <==> self is NotMatched,
+    {
+        match self { ParentResult::Matched(_) => ParentResult::Matched(()), ParentResult::NotFound => ParentResult::NotFound, ParentResult::NotMatched => ParentResult::NotMatched }
+    }
+}
+pub struct PathR { pub _opaque: u64 }
+impl PathR {
+    #[verifier::external_body]
+    pub fn display(&self) -> u64 { unimplemented!() }
+}
+pub struct TreeStackEmptyError;
